@@ -291,7 +291,39 @@ func (i *yamlInputIter) Next() (any, bool) {
 		i.err = &yamlParseError{i.fname, i.ir.getContents(nil, nil), err}
 		return i.err, true
 	}
-	return v, true
+	return normalizeYAMLNumbers(v), true
+}
+
+// The YAML decoder keeps the text of a number. YAML allows a plus sign and
+// a decimal point without digits on one side (+1, .5, 1.), which JSON does
+// not, so rewrite such literals to be printed as valid JSON numbers.
+func normalizeYAMLNumbers(v any) any {
+	switch v := v.(type) {
+	case json.Number:
+		s := strings.TrimPrefix(string(v), "+")
+		sign := ""
+		if strings.HasPrefix(s, "-") {
+			sign, s = "-", s[1:]
+		}
+		if strings.HasPrefix(s, ".") {
+			s = "0" + s
+		}
+		if i := strings.IndexAny(s, "eE"); i > 0 && s[i-1] == '.' {
+			s = s[:i] + "0" + s[i:]
+		} else if strings.HasSuffix(s, ".") {
+			s += "0"
+		}
+		return json.Number(sign + s)
+	case []any:
+		for i, x := range v {
+			v[i] = normalizeYAMLNumbers(x)
+		}
+	case map[string]any:
+		for k, x := range v {
+			v[k] = normalizeYAMLNumbers(x)
+		}
+	}
+	return v
 }
 
 func (i *yamlInputIter) Close() error {
